@@ -10,7 +10,7 @@ from .common import state_jobs, decode_state
 
 INFO = {
     "bounds": {
-        "quick": "totality: templates T01-T12,T15, all edge trees and repository fixtures, every user state inside the domain with the full malformed-number candidate lists (sampled partitions for large trees); cycles: every applicable back-edge kind (22 kinds) on every edge tree (29 forward kinds) = 354 mutants, enumerated (concrete programs, no symbolic input)",
+        "quick": "totality: templates T01-T12,T15, all edge trees and repository fixtures, every user state inside the domain with the full malformed-number candidate lists (sampled partitions for large trees); cycles: every applicable back-edge kind (22 kinds) on every edge tree with a forward edge X -> Y (465 mutants), enumerated (concrete programs, no symbolic input)",
         "thorough": "same with more partitions, plus edge trees in the totality part",
     },
     "outside": ["trees outside the corpus", "cycles longer than forward edge + back edge", "the back-edge family is an enumeration of concrete programs, not a solver result"],
